@@ -99,3 +99,24 @@ reg("C13", "exploration",
     "writes is stat(2)ed on the real scratch tree after the write: mode at creation == configured & ~umask and unchanged by rewrites, uid/gid == configured (own passwd/group reader). "
     "Weakest fit for the technique (no schedule or fault in the statement); claimed because the storage seam performs the real open(2)/chown(2).",
     quick=[("F1", 1500)], thorough=[("F1", 100000)])
+
+reg("C05", "exploration",
+    "F1 (identifier swarm: several names with different challenge types, CA lists authorizations/challenges in any order, offers subsets, pre-valid authorizations, "
+    "7 account key types) and F1w (a name and its wildcard with every (base, wildcard) challenge-type pair in both declaration orders). Oracle: the CA's own computation "
+    "of key authorization / dns-01 digest / acmeIdentifier text / reverse-DNS name from the registered JWK and issued token vs what the hook process received; hook type == "
+    "the type configured for the identifier the authorization is for; challenge POST only after the hooks exited successfully; no hook for an already valid authorization. "
+    "Non-trivial = at least one authorization of a mapped order was judged.",
+    quick=[("F1", 1200), ("F1w", 360)], thorough=[("F1", 80000), ("F1w", 20000)],
+    assumptions=["when a name and its wildcard use the same challenge type either configuration entry may be looked up (only type and proof values are judged)",
+                 "no hook and no challenge POST when the CA does not offer the configured type is correct behaviour"])
+
+reg("C10", "exploration",
+    "F1h: generated hook tables (3..9 hooks with random type sets incl. multi-typed hooks, nested groups, stdin_str/stdout/stderr templates, allow_failure x exit-code "
+    "assignments incl. death by signal, hard failures in a third of the plans), environment tables at global/certificate/identifier/account level plus colliding variables in "
+    "the simulator's own process environment; first issuances and renewals (create vs edit), all challenge types. Oracle: independent expansion of the hook table per event, "
+    "compared batch by batch with the process seam's records: selection by type, declaration order with groups in place, stop at the first hard failure, one at a time, "
+    "rendered argv/stdin/stdout, environment precedence identifier > certificate > global > process, pre/post x create/edit brackets around every storage-seam write, clean hooks "
+    "after validated challenges with identical variables. Non-trivial = at least one hook invocation was recorded.",
+    quick=[("F1h", 1500)], thorough=[("F1h", 100000)],
+    assumptions=["the child process itself is a stub (simhook); template rendering, filtering, ordering, environment assembly and failure handling are the shipped code",
+                 "for account file hooks only 'account over process' is asserted (the manual does not say whether the global table reaches accounts)"])
